@@ -709,6 +709,20 @@ func (e *Engine) fmtValue(g *G, out *[]*Term, v Value, t types.Type, verb byte, 
 	case *types.Basic:
 		switch x := v.(type) {
 		case *Term:
+			if !x.IsConst() && u.Info()&types.IsInteger != 0 && (verb == 'v' || verb == 'd') {
+				// decimal rendering by the real strconv code, run symbolically
+				sp := e.prog.ImportedPackage("strconv")
+				if sp != nil {
+					var r Value
+					if u.Info()&types.IsUnsigned != 0 {
+						r = e.callSync(g, &Closure{fn: sp.Func("FormatUint")}, []Value{ZExt(x, 64), BV(64, 10)})
+					} else {
+						r = e.callSync(g, &Closure{fn: sp.Func("FormatInt")}, []Value{SExt(x, 64), BV(64, 10)})
+					}
+					*out = append(*out, r.(Str).Terms()...)
+					return
+				}
+			}
 			if !x.IsConst() {
 				e.opaque(out)
 				return
